@@ -59,6 +59,20 @@ def write_overlay():
     return path
 
 
+def gen_snapshot(cfg, failed):
+    """For a tie obligation that no longer checks: what the regenerated tables say now."""
+    out = {}
+    if not any("_tie_" in n for n in failed):
+        return out
+    for g in cfg.get("gen", []):
+        p = os.path.join(LEAN, "Olla", "Gen", g["module"] + ".lean")
+        if g["module"] == "State" and os.path.exists(p):
+            txt = open(p).read()
+            out["Olla.Gen.State.mutableStateReached (function, found, reachable package-level variables the package changes after init)"] = \
+                re.findall(r'\("[^"]+", (?:true|false), \[[^\]]*\]\)', txt)
+    return out
+
+
 def go_build(pkg, overlay):
     os.makedirs(os.path.join(BUILD, "bin"), exist_ok=True)
     out = os.path.join(BUILD, "bin", pkg)
@@ -279,6 +293,7 @@ def main():
 
     # 4: correspondence
     verdicts = []
+    crash = None
     cases_path = os.path.join(work, "cases.jsonl")
     meta = {}
     if hbin and mbin:
@@ -289,8 +304,16 @@ def main():
         tmo = cfg.get("timeout_" + tier, 600 if tier == "quick" else 7200)
         rc, out, dt = sh(args, cwd=REPO, env=env, timeout=tmo)
         open(os.path.join(work, "harness.log"), "w").write(out)
+        crash = None
         if rc != 0:
             tie_errors.append(("harness-run", "harness exited rc=%d:\n%s" % (rc, out[-3000:])))
+            bc = os.path.join(work, "breadcrumb.json")
+            if os.path.exists(bc):
+                try:
+                    crash = {"last_input_before_the_process_died": json.load(open(bc)), "exit_code": rc,
+                             "tail_of_output": out[-2500:]}
+                except Exception:
+                    crash = None
         if os.path.exists(os.path.join(work, "meta.json")):
             try:
                 meta = json.load(open(os.path.join(work, "meta.json")))
@@ -349,6 +372,13 @@ def main():
                    "how_to_replay": "bin/check %s %s --replay %s" % (pid, tier, rp),
                    "broken_obligations": po["failed"], "tie_errors": [t[0] for t in tie_errors]}, open(rp, "w"), indent=1)
         out_lines.append("VIOLATION property=%s replay=%s" % (pid, rp))
+    if crash and cfg.get("crash_is_violation"):
+        # the property itself says the process must survive: the input being processed when it died is the failing input
+        violations += 1
+        rp = os.path.join(replays, "%s-%s-crash.json" % (pid, tier))
+        json.dump({"property": pid, "signature": "process-died", "what": "the harness process (which runs the code under test in-process) died", **crash,
+                   "seed": seed, "tier": tier}, open(rp, "w"), indent=1)
+        out_lines.append("VIOLATION property=%s replay=%s" % (pid, rp))
     if violations == 0 and (po["failed"] or tie_errors or [v for v in disagree if v.get("spec", True)]):
         # something no longer checks but no concrete failing input was found
         violations += 1
@@ -358,6 +388,7 @@ def main():
                    "correspondence_that_no_longer_checks": [{"what": a, "detail": b} for a, b in tie_errors] +
                    [{"what": "model/implementation disagreement", "case": cases.get(v.get("case")), "verdict": v} for v in disagree[:20]],
                    "disagreements": len(disagree), "seed": seed, "tier": tier,
+                   "regenerated_facts": gen_snapshot(cfg, [n for n, _ in po["failed"]]),
                    "searched": "spec predicate evaluated on the implementation's outputs for %d generated cases (corpus first): no case falsified it" % ncases},
                   open(rp, "w"), indent=1)
         out_lines.append("VIOLATION property=%s replay=%s no-failing-input-found" % (pid, rp))
